@@ -4,6 +4,7 @@ import Pdpy11.Model.Rad50
 import Pdpy11.Model.Container
 import Pdpy11.Model.Lin
 import Pdpy11.Model.Link
+import Pdpy11.Model.Scope
 /-
 Whole-program model of `compiler.py` + `metacommands.py` + `metacommand_impl.py` for the
 grammar G: an elaboration pass that walks the statements in order (symbol tables, scoping
@@ -145,11 +146,10 @@ def diag (sev id file : String) (s e : Nat) : Elab Unit :=
 def unsupported (what : String) : Elab Unit :=
   modify (fun st => { st with unsupported := st.unsupported <|> some what })
 
-def qLocal (k : Nat) (name : String) : String := s!".local{k}." ++ lowerS name
-def qInternal (k : Nat) (name : String) : String := s!".internal{k}." ++ lowerS name
+def qLocal (k : Nat) (name : String) : String := Scope.qLocal k (lowerS name)
+def qInternal (k : Nat) (name : String) : String := Scope.qInternal k (lowerS name)
 
-def lookupQ (st : ES) (q : String) : Option (SymDef × Span × String) :=
-  (st.syms.find? (fun e => e.1 == q)).map (·.2)
+def lookupQ (st : ES) (q : String) : Option (SymDef × Span × String) := Scope.lookup st.syms q
 
 /-- `declare_external_symbol` -/
 def declareExtern (file : String) (sp : Span) (name : String) (internalPrefix : Nat) : Elab Unit := do
@@ -228,12 +228,18 @@ mutual
             let isLocal := match name.toList.head? with | some c => isDigit c | none => false
             let q := if isLocal then qLocal lp name else qInternal internalPrefix name
             let st ← get
-            match lookupQ st q with
-            | some _ => do
-              diag "error" "duplicate-symbol" file sp.s sp.e
-              go rest lp fs
+            match Scope.define st.syms q (SymDef.label pos, sp, name) with
             | none => do
-              set { st with syms := st.syms ++ [(q, SymDef.label pos, sp, name)] }
+              diag "error" "duplicate-symbol" file sp.s sp.e
+              -- a refused ordinary label still closes the local scope (compile_block bumps the
+              -- prefix after compile_label whatever it did)
+              if !isLocal then
+                let st2 ← get
+                set { st2 with nextLocal := st2.nextLocal + 1 }
+                go rest st2.nextLocal fs
+              else go rest lp fs
+            | some syms' => do
+              set { st with syms := syms' }
               if isExtern then declareExtern file sp name internalPrefix
               if !isLocal then
                 let fs' := { fs with internalSyms := fs.internalSyms ++ [name] }
@@ -261,12 +267,12 @@ mutual
           else do
             let q := qInternal internalPrefix target
             let st ← get
-            match lookupQ st q with
-            | some _ => do
+            match Scope.define st.syms q (SymDef.assign value ctx, sp, target) with
+            | none => do
               diag "error" "duplicate-symbol" file sp.s sp.e
               go rest lp fs
-            | none => do
-              set { st with syms := st.syms ++ [(q, SymDef.assign value ctx, sp, target)] }
+            | some syms' => do
+              set { st with syms := syms' }
               let fs' := { fs with internalSyms := fs.internalSyms ++ [target] }
               if isExtern then declareExtern file sp target internalPrefix
               (match fs.externAll with
@@ -536,13 +542,9 @@ mutual
     if Eval.registerNames.contains (lowerS name) && !isLabel then do
       evDiag "error" "unexpected-register" ctx.file sp.s sp.e
       evFail .abort
-    let cands := [qLocal ctx.localPrefix name, qInternal ctx.internalPrefix name]
-    let found := match cands.findSome? (fun q => (lookupQ g.es q).map (fun d => (q, d))) with
-      | some r => some r
-      | none =>
-        match g.es.externs.find? (fun (e : String × String) => e.1 == lowerS name) with
-        | some (_, q) => (lookupQ g.es q).map (fun d => (q, d))
-        | none => none
+    let found := match Scope.resolveQ g.es.syms g.es.externs (qLocal ctx.localPrefix name) (qInternal ctx.internalPrefix name) (lowerS name) with
+      | some q => (lookupQ g.es q).map (fun d => (q, d))
+      | none => none
     match found with
     | none => do
       evDiag "error" "undefined-symbol" ctx.file sp.s sp.e
